@@ -332,6 +332,10 @@ def emit_value(value: Any, indent: int = 0) -> str:
     elif isinstance(value, bool):
         return "true" if value else "false"
     elif isinstance(value, int | float):
+        if isinstance(value, float) and value in (float("inf"), float("-inf")):
+            # str() gives "inf" / "-inf", which read back as text. An overflowing literal is
+            # the only spelling the lexer reads back as the same float.
+            return "1e999" if value > 0 else "-1e999"
         return str(value)
     elif isinstance(value, str):
         if needs_quotes(value):
